@@ -122,6 +122,10 @@ type Sym struct {
 	// MakeClosure instruction, to resolve captured locals
 	outer   *Sym
 	outerAt ssa.Instruction
+	// names of the caller's objects that pointer parameters designate (reader
+	// helpers evaluated in the caller's vocabulary)
+	dstNames map[*ssa.Parameter]string
+	ptrNames map[*ssa.Parameter]string
 }
 
 func (p *Prog) NewSym(fn *ssa.Function) *Sym {
@@ -268,6 +272,9 @@ func (s *Sym) eval(v ssa.Value) *Term {
 		}
 		if t := s.sumAccumulator(v); t != nil {
 			return t
+		}
+		if e := s.decidedEdge(v); e != nil {
+			return s.Of(e)
 		}
 		var args []*Term
 		same := true
@@ -1914,6 +1921,36 @@ func isDecoder(f *ssa.Function) bool {
 			}
 		}
 	}
+	if !res && len(f.Blocks) == 1 {
+		// a decoder that only forwards to another module decoder (a shared
+		// decoder parameterised by a width) keeps its own name in terms
+		b := f.Blocks[0]
+		if ret, ok := b.Instrs[len(b.Instrs)-1].(*ssa.Return); ok {
+			for _, in := range b.Instrs {
+				c, ok := in.(*ssa.Call)
+				if !ok {
+					continue
+				}
+				g := c.Call.StaticCallee()
+				if g == nil || g == f || g.Blocks == nil || !InModule(g) {
+					continue
+				}
+				forwards := false
+				for _, rv := range ret.Results {
+					if rv == ssa.Value(c) {
+						forwards = true
+					}
+					if ex, ok := rv.(*ssa.Extract); ok && ex.Tuple == ssa.Value(c) {
+						forwards = true
+					}
+				}
+				decoderMemo[f] = false // recursion guard
+				if forwards && isDecoder(g) {
+					res = true
+				}
+			}
+		}
+	}
 	decoderMemo[f] = res
 	return res
 }
@@ -3138,4 +3175,62 @@ func (s *Sym) loopAccumulator(ph *ssa.Phi) *Term {
 	}
 	init := s.Of(ph.Edges[1-back])
 	return catTerms(init, T("each", "", catTerms(step.Args[1:]...)))
+}
+
+// decidedEdge: the phi merges the two arms of a branch whose condition is a
+// constant in this evaluation context (a flag parameter of an inlined helper
+// bound to true or false at the call): the edge of the arm taken.
+func (s *Sym) decidedEdge(v *ssa.Phi) ssa.Value {
+	b := v.Block()
+	d := b.Idom()
+	if d == nil || len(d.Instrs) == 0 || len(d.Succs) != 2 {
+		return nil
+	}
+	ifi, ok := d.Instrs[len(d.Instrs)-1].(*ssa.If)
+	if !ok {
+		return nil
+	}
+	if _, isParamDep := ifi.Cond.(*ssa.Parameter); !isParamDep {
+		// keep this cheap and predictable: flags only (a parameter, or its negation)
+		u, ok := ifi.Cond.(*ssa.UnOp)
+		if !ok || u.Op != token.NOT {
+			return nil
+		}
+		if _, ok := u.X.(*ssa.Parameter); !ok {
+			return nil
+		}
+	}
+	ct := s.Of(ifi.Cond)
+	if ct.Op == "not" && len(ct.Args) == 1 && ct.Args[0].Op == "const" {
+		switch ct.Args[0].Name {
+		case "true":
+			ct = &Term{Op: "const", Name: "false"}
+		case "false":
+			ct = &Term{Op: "const", Name: "true"}
+		}
+	}
+	if ct.Op != "const" || (ct.Name != "true" && ct.Name != "false") {
+		return nil
+	}
+	taken, other := d.Succs[0], d.Succs[1]
+	if ct.Name == "false" {
+		taken, other = other, taken
+	}
+	var pick ssa.Value
+	n := 0
+	for i, p := range b.Preds {
+		feasible := (p == d && b == taken) || (taken != b && taken.Dominates(p))
+		infeasible := (p == d && b == other) || (other != b && other.Dominates(p))
+		if feasible == infeasible {
+			return nil
+		}
+		if feasible {
+			pick = v.Edges[i]
+			n++
+		}
+	}
+	if n != 1 {
+		return nil
+	}
+	return pick
 }
